@@ -12,6 +12,7 @@ EXPLANATION = (
     "max_threads is the maximum over all stages of the group count. Optimality of the balance heuristic is not decided.")
 ASSUMPTIONS = ["Iterator::find returns the first match; SmallVec::retain removes all non-matching entries"]
 TRUSTED = ["rustc nightly MIR construction", "shred-facts driver", "shredlint analyses"]
+TECHNIQUE = 'static: iterator-chain term (first accepted candidate wins), accept decision table, exactness of the conflict matrix, range chaining of dependency cross-off (DEPCOVER), removal idiom (ALLOCC), max_threads term'
 RULE_TEXT = "one obligation per chain link, accept-table row, predicate pair, cross-off range and idiom, width computation"
 
 
